@@ -4,18 +4,18 @@ TU = "c04_mutex.c"
 INV = ("(g_A >= 0 && (g_seat == 0 || g_seat == 1) && g_A < (1L << 61) - 2 * g_seat && (g_i_hold == 0 || g_i_hold == 1) && "
        "(g_env_holds == 0 || g_env_holds == 1) && (g_A & 1) == g_i_hold + g_env_holds)")
 AGREE = "M.state == g_A && " + INV
-L_TRY = {"myth_mutex_trylock_body": [dict(loop_id="0", assigns="M.state, g_A, g_env_holds, g_i_hold, g_acq, g_last_read",
+L_TRY = {"myth_mutex_trylock_body": [dict(loop_id="0", assigns="M.state, g_A, g_env_holds, g_i_hold, g_acq, g_last_read, g_saw_held",
           invariants=AGREE + " && g_i_hold == 0 && g_acq == 0 && g_seat == 0 && g_pending == 0 && g_ann_ever == 0 && g_block_ever == 0")]}
 L_LOCK = {"myth_mutex_lock_body": [dict(loop_id="0",
-          assigns="M.state, g_A, g_env_holds, g_i_hold, g_acq, g_seat, g_pending, g_ann_ever, g_block_ever, g_last_read, failed",
-          invariants=AGREE + " && g_i_hold == 0 && g_acq == 0 && g_seat == 1 && g_pending == 0 && g_rel == 0 && g_take == 0",
+          assigns="M.state, g_A, g_env_holds, g_i_hold, g_acq, g_seat, g_pending, g_ann_ever, g_block_ever, g_last_read, g_saw_held, failed",
+          invariants=AGREE + " && g_i_hold == 0 && g_acq == 0 && g_seat == 1 && g_pending == 0 && g_rel == 0 && g_take == 0 && g_saw_held == 0 && g_no_busy_wait == 1",
           symbol_map="failed,myth_mutex_lock_body::1::failed")]}
 L_UNLOCK = {"myth_mutex_unlock_body": [dict(loop_id="0",
-          assigns="M.state, g_A, g_env_holds, g_i_hold, g_rel, g_take, g_clear, g_wake_calls, g_last_read, failed",
+          assigns="M.state, g_A, g_env_holds, g_i_hold, g_rel, g_take, g_clear, g_wake_calls, g_last_read, g_saw_held, failed",
           invariants=AGREE + " && g_i_hold == 1 && g_seat == 0 && g_rel == 0 && g_take == 0 && g_clear == 0 && g_wake_calls == 0 && g_acq == 0 && g_ann_ever == 0 && g_block_ever == 0 && g_pending == 0",
           symbol_map="failed,myth_mutex_unlock_body::1::failed")]}
 L_TIMED = {"myth_mutex_timedlock_body": [dict(loop_id="0",
-          assigns="M.state, g_A, g_env_holds, g_i_hold, g_acq, g_clock_read_ever, g_now_s, g_now_ns, g_yield_ever, g_try_since_clock, __CPROVER_object_whole(tp)",
+          assigns="M.state, g_A, g_env_holds, g_i_hold, g_acq, g_clock_read_ever, g_now_s, g_now_ns, g_yield_ever, g_try_since_clock, g_saw_held, g_last_read, __CPROVER_object_whole(tp)",
           invariants=AGREE + " && g_i_hold == 0 && g_acq == 0 && g_seat == 0 && g_pending == 0 && g_ann_ever == 0 && g_block_ever == 0 && 0 <= g_now_ns && g_now_ns <= 999999999 && g_try_since_clock == 1",
           symbol_map="tp,myth_mutex_timedlock_body::1::2::tp")]}
 ENV = ["myth_verif_env_step/myth_verif_env_step"]
